@@ -28,13 +28,13 @@ CHECKS = {
    note="Small scope (order<=2 exhaustive in quick, <=3 thorough, canonical order 4); operator padding only when every mode is padded.",
    technique="TLA+ dense semantics, TLC enumeration, replay into torchtt with exact comparison"),
  "C05": dict(level=MC, design="§6 C05",
-   text="spec/Heap.tla is a state machine over a heap of TT objects with exact cores: 26 public operations (algebra, slicing, sums, cat, pad, diag, in-place set_core with changed mode size, reduce_dims) each as one action; TLC checks the invariant AllWF on every reachable state (exhaustive to depth 2/3, simulation to depth 8) and every behaviour is re-executed on torchtt, where after each call every live object must be well formed (cores vs N, M, R, shape, is_ttm) and the new object must have the model's kind, shape and exact value.",
+   text="spec/Heap.tla is a state machine over a heap of TT objects with exact cores: 26 public operations (algebra, slicing, sums, cat, pad, diag, in-place set_core with changed mode size, reduce_dims) each as one action; TLC checks the invariant AllWF on every reachable state (exhaustive to depth 2/3, simulation to depth 8) and every behaviour is re-executed on torchtt, where after each call every live object must be well formed (cores vs N, M, R, shape, is_ttm) and the new object must have the model's kind, shape and exact value. Code->spec: the repository's own tests and seeded random walks over the real API (incl. operations with implementation-chosen ranks) run under an outside recorder and every public call is validated by TLC against spec/TraceHeap.tla.",
    note="Small scope (<=9 live objects, ranks<=6, orders<=4); operations with implementation-chosen ranks are covered at descriptor level by trace validation of recorded runs.",
-   technique="TLA+ heap state machine, TLC invariant checking (BFS + simulation), behaviours replayed call by call into torchtt with full-heap projection"),
+   technique="TLA+ heap state machine, TLC invariant checking (BFS + simulation), behaviours replayed into torchtt with full-heap projection; recorded runs (test suite, random walks) validated by a TLC trace specification"),
  "C06": dict(level=MC, design="§6 C06",
-   text="The action property Stable of spec/Heap.tla (no step changes an existing object except the target of set_core / reduce_dims) is checked by TLC on the model and enforced on the implementation by replaying every generated history and comparing, after the last call, every pre-existing live object bitwise (cores, metadata, torch version counters) with its snapshot and with the model's heap; views created earlier in a history remain live so writes through shared storage are visible.",
+   text="The action property Stable of spec/Heap.tla (no step changes an existing object except the target of set_core / reduce_dims) is checked by TLC on the model and enforced on the implementation by replaying every generated history and comparing, after the last call, every pre-existing live object bitwise (cores, metadata, torch version counters) with its snapshot and with the model's heap; views created earlier in a history remain live so writes through shared storage are visible. spec/Effects.tla (table of 70 public routines x argument positions with allowed mutation sets) is enumerated and every entry called with the optional initial guess absent / fresh / aliasing an operand / reused; the repository's tests and random walks under the recorder are validated against spec/TraceHeap.tla (an object already in the heap changes only as target of set_core / reduce_dims).",
    note="Small scope as C05; iterative routines with optional initial guesses are covered by the effects table run (see evidence).",
-   technique="TLA+ action property over heap histories, TLC, replay into torchtt with bitwise operand snapshots"),
+   technique="TLA+ action property over heap histories + effects table, TLC, replay with bitwise operand snapshots; recorded runs validated by a TLC trace specification"),
  "C18": dict(level=MC, design="§6 C18",
    text="spec/Err.tla is the error side of the operation table: for every public entry point the classes of incompatible arguments (shape / order / kind mismatch at each position, wrong argument types, out-of-range axes, indices and core positions, invalid permutations, element-count mismatches, ill-formed core lists, bad rank lists). TLC enumerates the table over small structures and checks on the model that each case has no dense counterpart under torch broadcasting; every case is called on the implementation: returning anything is a violation; for docstring-named cases the exception must be a library class.",
    note="The table's completeness is by reading the public API (a coverage list in the evidence names the entry points it covers); invalid-but-well-typed values (negative eps) are outside the property.",
@@ -48,13 +48,13 @@ CHECKS = {
    note="Order 1-2 layers exhaustive over sizes {1,2,3}, canonical order 3-4 up to size 5; initialiser statistics not covered.",
    technique="TLA+ dense affine-map semantics, TLC enumeration, replay into torch.nn module with exact comparison + autograd cross-check"),
  "C01": dict(level=MC, design="§6 C01",
-   text="spec/ChopDefs.tla transcribes rank_chop (Python and C++) over exact integer energies with its contract; spec/Trunc.tla is the error ledger of the truncation sweep (threshold eps/sqrt(d-1) relative to the current remainder, caps, discarded energy). TLC checks the contract on every small spectrum, and ErrBound / RankBound on every sweep with environment-chosen spectra; every state of the chop model is executed on the real rank_chop, and every nested sweep behaviour (incl. exact threshold ties and saturated bonds) is realised as arrays with exactly those unfolding spectra in 9 variants (torch/numpy, singleton modes, operator shape, complex, float32, rotated, tall, flat+shape) and decomposed by torchtt.TT; verdict by the property's own statements (shape, rank bounds, measured error <= eps||A||).",
+   text="spec/ChopDefs.tla transcribes rank_chop (Python and C++) over exact integer energies with its contract; spec/Trunc.tla is the error ledger of the truncation sweep (threshold eps/sqrt(d-1) relative to the current remainder, caps, discarded energy). TLC checks the contract on every small spectrum, and ErrBound / RankBound on every sweep with environment-chosen spectra; every state of the chop model is executed on the real rank_chop, and every nested sweep behaviour (incl. exact threshold ties and saturated bonds) is realised as arrays with exactly those unfolding spectra in 9 variants (torch/numpy, singleton modes, operator shape, complex, float32, rotated, tall, flat+shape) and decomposed by torchtt.TT; verdict by the property's own statements (shape, rank bounds, measured error <= eps||A||). Code->spec: the chop events emitted by the guarded hooks in to_tt during every one of these real decompositions (and of random arrays) are validated by TLC against spec/TraceTrunc.tla (bond order, rank within cap, discarded energy within the per-bond tolerance, (d-1)*tolerance^2 <= eps^2, measured error within the budget).",
    note="The numerical establishment of the bound is a measurement on model-generated inputs (LAPACK trusted); non-nested spectra only via random arrays (exploration-grade part, counted separately in the evidence).",
-   technique="TLA+ transcription of rank_chop + truncation ledger, TLC invariants, behaviours realised as superdiagonal arrays and replayed into torchtt.TT"),
+   technique="TLA+ transcription of rank_chop + truncation ledger, TLC invariants, behaviours realised as superdiagonal arrays and replayed into torchtt.TT; hook-recorded sweeps validated by a TLC trace specification"),
  "C02": dict(level=MC, design="§6 C02",
-   text="Same chop and ledger models as C01 (right-to-left processing order); every nested behaviour is realised as a TT with exactly the model's spectra, stored with ranks inflated through non-orthogonal gauges and cores rescaled by 1e4/1e-4 (also complex, operator, float32), then x.round(eps, rmax) is run: same shape, no rank grows, ranks <= rmax and <= exact rank, error <= eps||x|| unless capped, operand bitwise unchanged with consistent metadata.",
+   text="Same chop and ledger models as C01 (right-to-left processing order); every nested behaviour is realised as a TT with exactly the model's spectra, stored with ranks inflated through non-orthogonal gauges and cores rescaled by 1e4/1e-4 (also complex, operator, float32), then x.round(eps, rmax) is run: same shape, no rank grows, ranks <= rmax and <= exact rank, error <= eps||x|| unless capped, operand bitwise unchanged with consistent metadata. The chop events of every real round_tt sweep are validated by TLC against spec/TraceTrunc.tla.",
    note="As C01; conditioning of the gauges up to ~1e8.",
-   technique="TLA+ truncation ledger, TLC invariants, behaviours realised as over-parameterised TTs and replayed into TT.round"),
+   technique="TLA+ truncation ledger, TLC invariants, behaviours realised as over-parameterised TTs and replayed into TT.round; hook-recorded sweeps validated by a TLC trace specification"),
  "C10": dict(level=MC, design="§6 C10",
    text="spec/Reshape.tla is a branch-by-branch transcription of the two-cursor merge/split walk of torchtt.reshape (tensor and operator branch) over shapes; TLC walks every (source, target) pair of a small scope and checks ShapeOK (emitted modes = requested), AllConsumed (no input core left behind: the sign/phase defect class), the SVD-split budget and termination; spec/Permute.tla (bubble sort with swap budget, all permutations) and spec/Qtt.tla (split/regroup arithmetic, round trip) likewise. Every walked case is executed on torchtt on random data (3 rank profiles, real/complex, eps default..1e-1) and compared with the dense reshape/permute: exact mode sizes, value within 3*eps, sign/phase, operand unchanged.",
    note="Values are sampled (random cores); the truncation-error amplification of permute in non-orthogonal gauges is only sampled. The float math.log pitfall of to_qtt does not occur for mode_size 2 up to 2^39 (checked) and is outside the power-of-two scope for other bases.",
